@@ -252,3 +252,15 @@ REFACTORINGS = {
 for _r, _props in REFACTORINGS.items():
     CORPUS.append({"name": f"refactoring-{_r}", "props": _props.split(","), "kind": "benign", "edits": [],
                    "diff": f"benign/{_r}/refactor.diff"})
+
+# ---------------------------------------------------------------- the independently seeded breaking changes (seeded/<id>/patch.diff):
+# the target property's check must report each of them
+import os as _os
+import re as _re
+_SEEDED = _os.path.join(_os.path.dirname(_os.path.dirname(_os.path.dirname(_os.path.abspath(__file__)))), "seeded")
+if _os.path.isdir(_SEEDED):
+    for _sid in sorted(_os.listdir(_SEEDED)):
+        _m = _re.search(r"C\d\d", _sid)
+        if _m and _os.path.exists(_os.path.join(_SEEDED, _sid, "patch.diff")):
+            CORPUS.append({"name": f"seeded-{_sid}", "props": [_m.group(0)], "kind": "break", "edits": [],
+                           "diff": f"seeded/{_sid}/patch.diff"})
